@@ -21,39 +21,48 @@ func init() {
 	core.Register(&c20{base: base{
 		id: "C20",
 		rule: "cases = generated module sets (1-3 modules, groupings/uses/augments, config true/false mixed at every level, config false lists, choices with default cases whose members are state, " +
-			"rpcs and notifications, a random subset of features enabled) x 9 filters {none, IsConfig, IsState, IsOpd, IsConfigOrState(), Include(IsConfig,IsOpd), Exclude(IsState), IncludeState(true), " +
-			"IncludeState(false)}: the canonical dump of the filtered compilation must equal the dump of the unfiltered compilation from which every node failing the predicate " +
-			"(evaluated by the harness on the unfiltered schema node with the same exported predicate functions) has been removed with its subtree; the filtered compilation must succeed whenever " +
+			"rpcs and notifications, a random subset of features enabled) x 17 filters {none, IsConfig, IsState, IsOpd, IsConfigOrState(), IncludeState(true/false) and Include / Exclude combinations of them, also of none and of nil} " +
+			": the canonical dump of the filtered compilation must equal the dump of the unfiltered compilation from which every node failing the predicate " +
+			"(the meaning of each filter is written out in the harness over the node's config flag and kind in the unfiltered schema; the exported predicate functions are not used for the reference) has been removed with its subtree; the filtered compilation must succeed whenever " +
 			"the unfiltered one does; distinct_nontrivial = distinct (module texts, filter) pairs in which the filter removed at least one node and kept at least one",
 		block: 8,
 		assumptions: []string{
 			"choices and cases are nodes for the purpose of pruning; the merged top-level view of the ModelSet is recomputed from the surviving module children",
-			"operational command nodes (opd:command / opd:option / opd:argument) stand in a module of their own in every second set; the reference prunes them with the same predicate",
+			"operational command nodes (opd:command / opd:option / opd:argument) stand in a module of their own in every second set; the reference knows them by their kind",
 		},
 		minEvents: []string{"unfiltered_compilations", "filtered_compilations", "dumps_compared", "nodes_pruned_in_reference", "default_case_filtered_away"},
 	}})
 }
 
+// A filter as handed to the compiler, and what it means: ref says whether a node is kept, given the node's
+// config flag in the unfiltered schema and whether it is an operational command node (written out here
+// from the documentation of the filters, not computed with them).
 type c20Filter struct {
 	name string
 	f    compile.SchemaFilter
+	ref  func(config, opd bool) bool
 }
 
+func c20State(config, opd bool) bool { return !config && !opd }
+
 var c20Filters = []c20Filter{
-	{"none", nil},
-	{"IsConfig", compile.IsConfig},
-	{"IsState", compile.IsState},
-	{"IsOpd", compile.IsOpd},
-	{"IsConfigOrState()", compile.IsConfigOrState()},
-	{"Include(IsConfig,IsOpd)", compile.Include(compile.IsConfig, compile.IsOpd)},
-	{"Exclude(IsState)", compile.Exclude(compile.IsState)},
-	{"IncludeState(true)", compile.IncludeState(true)},
-	{"IncludeState(false)", compile.IncludeState(false)},
-	{"Exclude(IsOpd)", compile.Exclude(compile.IsOpd)},
-	{"Exclude(IsConfig)", compile.Exclude(compile.IsConfig)},
-	{"Include(IsConfig,IsState)", compile.Include(compile.IsConfig, compile.IsState)},
-	{"Include(IsConfig,IncludeState(true))", compile.Include(compile.IsConfig, compile.IncludeState(true))},
-	{"Include(IsOpd,IsState)", compile.Include(compile.IsOpd, compile.IsState)},
+	{"none", nil, nil},
+	{"IsConfig", compile.IsConfig, func(c, o bool) bool { return c }},
+	{"IsState", compile.IsState, c20State},
+	{"IsOpd", compile.IsOpd, func(c, o bool) bool { return o }},
+	{"IsConfigOrState()", compile.IsConfigOrState(), func(c, o bool) bool { return c || c20State(c, o) }},
+	{"Include(IsConfig,IsOpd)", compile.Include(compile.IsConfig, compile.IsOpd), func(c, o bool) bool { return c || o }},
+	{"Exclude(IsState)", compile.Exclude(compile.IsState), func(c, o bool) bool { return !c20State(c, o) }},
+	{"IncludeState(true)", compile.IncludeState(true), c20State},
+	{"IncludeState(false)", compile.IncludeState(false), func(c, o bool) bool { return !c20State(c, o) }},
+	{"Exclude(IsOpd)", compile.Exclude(compile.IsOpd), func(c, o bool) bool { return !o }},
+	{"Exclude(IsConfig)", compile.Exclude(compile.IsConfig), func(c, o bool) bool { return !c }},
+	{"Include(IsConfig,IsState)", compile.Include(compile.IsConfig, compile.IsState), func(c, o bool) bool { return c || c20State(c, o) }},
+	{"Include(IsConfig,IncludeState(true))", compile.Include(compile.IsConfig, compile.IncludeState(true)), func(c, o bool) bool { return c || c20State(c, o) }},
+	{"Include(IsOpd,IsState)", compile.Include(compile.IsOpd, compile.IsState), func(c, o bool) bool { return o || c20State(c, o) }},
+	{"Exclude(IsConfig,IsOpd)", compile.Exclude(compile.IsConfig, compile.IsOpd), func(c, o bool) bool { return !c && !o }},
+	{"Include()", compile.Include(), func(c, o bool) bool { return false }},
+	{"Exclude(nil)", compile.Exclude(nil), func(c, o bool) bool { return true }},
 }
 
 func (p *c20) NumCases(tier string, seed int64) int { return tierN(tier, 1000, 40000) }
@@ -108,7 +117,7 @@ func (p *c20) Describe(tier string, seed int64, idx int) string {
 }
 
 // prune removes every schema node failing f, with its subtree.
-func c20Prune(d *dump.DNode, f compile.SchemaFilter, removed, kept *int) *dump.DNode {
+func c20Prune(d *dump.DNode, f func(config, opd bool) bool, removed, kept *int) *dump.DNode {
 	out := &dump.DNode{Kind: d.Kind, Name: d.Name, Attrs: d.Attrs, Ref: d.Ref}
 	for _, k := range d.Kids {
 		if k.Kind == "merged-top" {
@@ -121,7 +130,13 @@ func c20Prune(d *dump.DNode, f compile.SchemaFilter, removed, kept *int) *dump.D
 			}
 			switch kind {
 			case "container", "list", "leaf", "leaf-list", "choice", "case", "opd":
-				if !f(k.Ref) {
+				config := false
+				for _, a := range k.Attrs {
+					if strings.HasPrefix(a, "config=true ") {
+						config = true
+					}
+				}
+				if !f(config, kind == "opd") {
 					*removed += k.Count()
 					continue
 				}
@@ -181,7 +196,7 @@ func (p *c20) Run(tier string, seed int64, idx int) core.CaseResult {
 			continue
 		}
 		removed, kept := 0, 0
-		want := c20Prune(base.DumpRoot, fl.f, &removed, &kept).String()
+		want := c20Prune(base.DumpRoot, fl.ref, &removed, &kept).String()
 		got := c20Strip(fr.DumpRoot).String()
 		res.Ev("dumps_compared", 1)
 		res.Ev("nodes_pruned_in_reference", int64(removed))
